@@ -263,7 +263,7 @@ func genC17(t *rapid.T) (CaseC17, map[string]bool) {
 		for si := range a.Informed {
 			if rapid.IntRange(0, 2).Draw(t, "mercurySel?") != 0 {
 				pr := rapid.OneOf(rapid.IntRange(1, 40), rapid.SampledFrom([]int{0, 41, 99, -1, 2, 3, 4})).Draw(t, "priority")
-				so := fmt.Sprintf("%s:%d", rapid.SampledFrom([]string{"GTFS:MTASBWY", "x", "", "MTA:NYCT:G", "a:b:c:d", "MTASBWY:7:", ":"}).Draw(t, "sortPrefix"), pr)
+				so := fmt.Sprintf(rapid.SampledFrom([]string{"%s:%d", "%s:%d", "%s:%d", "%s:%02d", "%s:%03d"}).Draw(t, "priorityShape"), rapid.SampledFrom([]string{"GTFS:MTASBWY", "x", "", "MTA:NYCT:G", "a:b:c:d", "MTASBWY:7:", ":"}).Draw(t, "sortPrefix"), pr)
 				if rapid.IntRange(0, 9).Draw(t, "badSortOrder") == 0 {
 					so = rapid.SampledFrom([]string{"nocolon", "a:b", "a:", ""}).Draw(t, "badSort")
 				}
